@@ -1132,7 +1132,10 @@ class FrameVal:
         if isinstance(k, SeriesVal):
             return self.derive(sel=lambda i: z3.And(self._sel(i), _zb(k.at(i))))
         if isinstance(k, (list, tuple)):
-            return self
+            # df[[labels]]: a NEW frame over the same rows; which columns it keeps is recorded (its cells are the frame's)
+            r = self.derive()
+            r.projected = list(k)
+            return r
         key = k.z.get_id() if isinstance(k, Sym) else k
         if key in self.overrides:
             ov = self.overrides[key]
